@@ -61,6 +61,7 @@ package messages
 //@        && !(a.Authenticator.CTime.Add(int64(a.Authenticator.Cusec) * 1000).Sub(now#2) > d)
 // Completeness direction: a request is refused only with an error, and each RFC 4120 error code only when its condition holds.
 //@   ensures !ok ==> err != nil
+//@   ensures !krberr(err, 34)
 //@   ensures krberr(err, 33) ==> a.Ticket.DecryptedEncPart.StartTime.Sub(now#1) > d || flagset(a.Ticket.DecryptedEncPart.Flags, 7)
 //@   ensures krberr(err, 32) ==> (now#1).Sub(a.Ticket.DecryptedEncPart.EndTime) > d
 //@   ensures krberr(err, 38) ==> len(a.Ticket.DecryptedEncPart.CAddr) > 0 && !addr_in(a.Ticket.DecryptedEncPart.CAddr, cAddr)
@@ -74,6 +75,7 @@ package messages
 
 //@ func (*messages.Ticket).GetPACType(t, kt, sname, l) (isPAC, pac, err)
 //@   pure
+//@   sets lastPACBad := isPAC && err != nil
 //@   trusted_frame decoding works on copies; the ticket, keytab and settings are only read
 
 // ---- client side: a KDC reply is accepted only if it answers the request sent (property C09, RFC 4120 3.1.5 / 3.3.4)
